@@ -100,13 +100,16 @@ def enumerate_cases(tier):
             for n in range(1, n_squeue + 1):
                 for kind in ("squeue_fail_once", "squeue_fail_series"):
                     yield {"scn": scn, "schedule": [], "lock_mode": mode, "fault": {"kind": kind, "nth": n}, "later": ["try", "show"], "fixed": si}
+                # the scheduler stays unreachable for two retry windows
+                yield {"scn": scn, "schedule": [], "lock_mode": mode, "fault": {"kind": "squeue_fail_series", "nth": n, "len": 14},
+                       "later": ["try", "show"], "fixed": si}
 
 
 @st.composite
 def cases(draw):
     scn = draw(gen.scenarios(min_jobs=2, max_jobs=8, max_groups=2))
     kind = draw(st.sampled_from(["kill", "kill", "kill", "lock_timeout", "write_fail", "sbatch_fail_once", "sbatch_fail_series",
-                                 "squeue_fail_once", "squeue_fail_series"]))
+                                 "squeue_fail_once", "squeue_fail_series", "squeue_fail_series"]))
     if kind in ("kill", "lock_timeout", "write_fail"):
         fault = {"kind": kind, "inv": draw(st.integers(0, 5)),
                  "at": draw(st.integers(1, {"kill": 140, "lock_timeout": 14, "write_fail": 12}[kind]))}
@@ -114,6 +117,8 @@ def cases(draw):
         fault = {"kind": kind, "nth": draw(st.integers(0, 4))}
     else:
         fault = {"kind": kind, "nth": draw(st.integers(1, 8))}
+        if kind == "squeue_fail_series":
+            fault["len"] = draw(st.sampled_from([7, 7, 14, 21]))  # 1-3 whole retry windows
     return {"scn": scn, "schedule": draw(gen.schedules(200)), "lock_mode": draw(st.sampled_from(["classic", "selfheal"])),
             "fault": fault, "later": draw(st.lists(st.sampled_from(["try", "show"]), min_size=1, max_size=3))}
 
@@ -134,10 +139,37 @@ def run_case(case):
     with H.Sim(scn, schedule=case["schedule"], lock_mode=case["lock_mode"], file_yields=True, faults=[fault],
                observe_results=True, observe_rows=True, max_steps=30000) as sim:
         w = sim.w
-        sim.submit()
         res = {"violations": [], "classes": gen.scenario_classes(scn) + ["lock:" + case["lock_mode"], "fault:" + fault["kind"]],
                "nontrivial": False, "sample": None, "inconclusive": None, "counters": {}}
         v = res["violations"]
+        sq = {"ids_at_start": {}, "failed": set()}
+
+        def status_query_observer(rec):
+            # a process whose status query failed for a whole retry window must not forget batches that are still alive
+            # (pending, or with a job process running right now): it either aborts or continues consistently
+            if rec["k"] == "proc_start":
+                sq["ids_at_start"][rec["name"]] = set((sim.job_status() or {}).get("hpc_job_ids", []))
+            elif rec["k"] == "squeue_fail" and rec.get("mode") == "series":
+                sq["failed"].add(rec["by"])
+            elif rec["k"] == "proc_end" and rec["name"] in sq["failed"]:
+                sq["failed"].discard(rec["name"])
+                after = set((sim.job_status() or {}).get("hpc_job_ids", []))
+                live = set()
+                for jid, r in w.slurm.items():
+                    # alive for certain: not started yet, or one of its job processes is running right now
+                    running = any(j.batch == jid and j.returncode is None and not j.died for j in w.jobs)
+                    if r["state"] == "PENDING" or (r["state"] == "RUNNING" and r["vt"] is not None and not r["vt"].dead and running):
+                        live.add(jid)
+                dropped = (sq["ids_at_start"].get(rec["name"], set()) & live) - after
+                if dropped:
+                    v.append(C.viol("C11:live-batch-forgotten-after-status-query-failure",
+                                    f"{rec['name']}: its status query failed; batches {sorted(dropped)} were recorded as active "
+                                    f"when it started, are pending or have a job process running now, and are no longer recorded when it ended "
+                                    f"(recorded now: {sorted(after)})"))
+
+        if fault["kind"] == "squeue_fail_series":
+            w.observers.append(status_query_observer)
+        sim.submit()
         later_attempts = 0
         ok = w.run()
         for k in case["later"]:
